@@ -199,6 +199,9 @@ func matNode(b *Behaviour, f, n int, d NodeDef, opts *MatOpts) M {
 		if d.Kind == "dialwait" {
 			w = M{"type": "dial", "phone": "+12065551212"}
 			r["operand"] = "@(default(resume.dial.status, \"\"))"
+			// the two cases test the dial status: choice 1 = answered, choice 2 = busy, anything else = failed (no case)
+			cs := r["cases"].([]M)
+			cs[0]["arguments"], cs[1]["arguments"] = []string{"answered"}, []string{"busy"}
 		} else if d.Timeout != 0 {
 			w["timeout"] = M{"seconds": 60, "category_uuid": catUUID(f, n, d.Timeout)}
 		}
@@ -226,10 +229,30 @@ func matNode(b *Behaviour, f, n int, d NodeDef, opts *MatOpts) M {
 	return node
 }
 
+// behaviours with a dial wait anywhere are voice flows
+func hasDial(b *Behaviour) bool {
+	for _, fl := range b.Def {
+		for _, d := range fl {
+			if d.Kind == "dialwait" {
+				return true
+			}
+		}
+	}
+	for _, c := range b.Hist {
+		if c.Op == "fault" && c.Kind == "wait_dial" {
+			return true
+		}
+	}
+	return false
+}
+
 func matAssets(b *Behaviour, opts *MatOpts, gone map[int]bool) []byte {
 	ftype := opts.FlowType
 	if ftype == "" {
 		ftype = "messaging"
+		if hasDial(b) {
+			ftype = "voice"
+		}
 	}
 	fl := []M{}
 	for f := 1; f <= b.NFlows; f++ {
@@ -287,6 +310,9 @@ func matTrigger(b *Behaviour, flow int, ftype string) []byte {
 }
 
 func matTriggerOpts(b *Behaviour, flow int, ftype string, opts *MatOpts) []byte {
+	if ftype == "" && hasDial(b) {
+		ftype = "voice"
+	}
 	contact := contactJSON()
 	msgURN, parentURNs := "tel:+12065551212", []string{"tel:+12065550000"}
 	if curTwin >= 0 {
@@ -362,7 +388,11 @@ func matResume(c Call, k int) []byte {
 		r["type"] = "run_expiration"
 	case "dial":
 		r["type"] = "dial"
-		r["dial"] = M{"status": "answered", "duration": 5}
+		status := map[int]string{1: "answered", 2: "busy"}[c.Choice]
+		if status == "" {
+			status = "failed"
+		}
+		r["dial"] = M{"status": status, "duration": 5}
 	default:
 		panic("unknown resume kind " + c.Kind)
 	}
